@@ -126,8 +126,14 @@ class Q(object):
             self.b = b
 
 
-class BadMA(Q):
+class BadMA(object):
     __match_args__ = ["a", "b"]
+
+    def __init__(self, a=_MISSING, b=_MISSING):
+        if a is not _MISSING:
+            self.a = a
+        if b is not _MISSING:
+            self.b = b
 
 
 class Boom(object):
